@@ -76,6 +76,7 @@ type Verifier struct {
 	Errors        []string // machinery errors
 	UsedEnv       map[string]bool
 	UsedSummaries map[string]bool
+	coveredPred   func(key string) bool
 	Verified      map[string]bool
 	AllClauses    map[string]bool // functions verified with every clause (summary callees)
 }
